@@ -188,6 +188,17 @@ theorem forgePos_element_intro (s : Sequence) (d f t : Bool) (pos : Nat) (e e' :
     simp only [forgeEntry, h4, h2, Except.map, filterEntry, List.mapM_cons, List.mapM_nil, bind, Except.bind, h3,
       pure, Except.pure]
 
+/-- an element position of `forge(True, True, False)` -/
+theorem forge_element_position' (s : Sequence) (out : List (Nat × ForgedPos)) (h : s.forge true true false = .ok out)
+    (i : Nat) (hi : i < out.length) (e : Element) (he : Dict.get? s.data ((i + 1 : Nat) : Int) = some (.el e)) :
+    ∃ e' arr c sq, delayedEl s true e = .ok e' ∧ e'.getArrays false = .ok arr ∧ s.withFilters true arr = .ok c ∧
+      Dict.get? s.sequencing ((i + 1 : Nat) : Int) = some sq ∧
+      out[i] = (i + 1, { sequencing := sq, isSub := false, content := [(1, c, none)] }) := by
+  obtain ⟨en, hen, hpos⟩ := (forge_pos s true true false out h).2 i hi
+  rw [he] at hen
+  cases hen
+  exact forgePos_element s true true false (i + 1) e _ hpos
+
 /-! ### a subsequence position -/
 
 theorem mapM_cons_eq {α β : Type} (f : α → Except Err β) (a : α) (t : List α) :
